@@ -154,6 +154,10 @@ def edge_must_err(b, sw, tgt):
     return False
 
 
+STD_VARIANT_INDEX = {"std::option::Option": {"None": 0, "Some": 1}, "std::result::Result": {"Ok": 0, "Err": 1},
+                     "std::ops::ControlFlow": {"Continue": 0, "Break": 1}}
+
+
 def hyp_reach(b, starts, call_value, stop=()):
     """blocks reachable from `starts` under a hypothesis about the results of some calls: `call_value(bi, term)` gives the
     integer (bool) a call returns under the hypothesis, or None when the hypothesis says nothing. Plain locals holding known
@@ -186,8 +190,13 @@ def hyp_reach(b, starts, call_value, stop=()):
                     v = o["int"]
                 elif o.get("k") in ("copy", "move") and not o["pl"]["p"] and o["pl"]["l"] in env:
                     v = env[o["pl"]["l"]]
-            elif rv["r"] == "un" and rv["op"] == "Not" and op_local(rv["a"]) in env and not rv["a"]["pl"]["p"]:
+            elif rv["r"] == "un" and rv["op"] == "Not" and op_local(rv["a"]) in env and not rv["a"]["pl"]["p"] and env[op_local(rv["a"])] in (0, 1):
                 v = 1 - env[op_local(rv["a"])]
+            elif rv["r"] == "agg" and rv.get("ak") == "adt" and rv.get("adt") in STD_VARIANT_INDEX and rv.get("variant") in STD_VARIANT_INDEX[rv["adt"]]:
+                # a freshly built Option / Result: its discriminant is known on this path
+                v = ("variant", STD_VARIANT_INDEX[rv["adt"]][rv["variant"]])
+            elif rv["r"] == "discr" and not rv["pl"]["p"] and isinstance(env.get(rv["pl"]["l"]), tuple):
+                v = env[rv["pl"]["l"]][1]
             if v is None:
                 env.pop(l, None)
             else:
@@ -204,10 +213,10 @@ def hyp_reach(b, starts, call_value, stop=()):
                     env[d["l"]] = int(v)
         elif t["t"] == "switch":
             l = op_local(t["discr"])
-            if l is not None and not t["discr"]["pl"]["p"] and l in env:
+            if l is not None and not t["discr"]["pl"]["p"] and isinstance(env.get(l), int):
                 tg = dict(t["targets"])
                 succ = [tg.get(env[l], t["otherwise"])]
-        nt = tuple(sorted(env.items()))
+        nt = tuple(sorted(env.items(), key=repr))
         for s in succ:
             work.append((s, nt))
     return reached
